@@ -204,7 +204,8 @@ impl CodeCache {
 
     let space_remaining = available_length - write_cursor;
     if space_remaining < MEMORY_MINIMUM_SIZE {
-      println!("Running out of space, only {} bytes left", space_remaining);
+      // standard output carries the guest's serial port: diagnostics go to stderr
+      eprintln!("Running out of space, only {} bytes left", space_remaining);
     }
 
     starting_offset
